@@ -180,7 +180,14 @@ def c08(chk):
                         chk.count('decoded durations below 1 ms')
                     k += 1
                     cases.append(c)
-    groups = [c.setup_lines(i, 'Q') + [c.eval_line(f'{i}.v', 'Q', rec=1)] for i, c in enumerate(cases)]
+    def aborted(i, c):
+        # a third of the cases: an earlier evaluation on the same optimizer was aborted by an exception from the running cost
+        if i % 3:
+            return []
+        ca = copy.copy(c); ca.spec = dict(c.spec, pertKind=9, pertIdx=rng.randrange(0, 2 * (c.steps + 1))); ca.x = ol.rand_x(rng, c)
+        chk.count('earlier evaluation aborted by an exception')
+        return [ca.eval_line(f'{i}.abort', 'X', rec=0)]
+    groups = [c.setup_lines(i, 'Q') + aborted(i, c) + [c.eval_line(f'{i}.v', 'Q', rec=1)] for i, c in enumerate(cases)]
     cpp, _ = run_cpp(groups)
     mq = run_groups_model(groups)
     chk.evaluations += len(cases)
@@ -395,6 +402,19 @@ def c09_reconfig(chk):
                 nn = rng.randint(1, 5)
                 t = ol.rand_case(rng, o, d, nn, flags=cur.flags, tmType=cur.tmType, smType=cur.smType)
                 cur = copy.copy(cur); cur.n = nn; cur.h, cur.P, cur.bc, cur.t0 = t.h, t.P, t.bc, t.t0
+                if rng.random() < 0.4:
+                    # repair-and-retry: the same problem is first submitted with a defect (rejected), then correctly; nothing of the
+                    # rejected call may be trusted by the accepted one
+                    bad = copy.copy(cur)
+                    kind = rng.randrange(3)
+                    if kind == 0:
+                        bad.h = list(cur.h); bad.h[rng.randrange(nn)] = 5e-4
+                    elif kind == 1:
+                        bad.P = [list(r) for r in cur.P]; bad.P[rng.randrange(nn + 1)][rng.randrange(d)] = float('nan')
+                    else:
+                        bad.t0 = float('inf')
+                    g.append(bad.setup_lines(rid + '.bad', 'Q')[2].replace(f'{rid}.bad.c', rid + '.bad'))
+                    chk.count('reconfig: rejected initialisation followed by the repaired one')
                 g.append(cur.setup_lines(rid, 'Q')[2].replace(f'{rid}.c', rid))
             elif op == 'relocate':
                 # the optimizer is moved to (or copied to) another object and used from there: the configuration travels with it
@@ -458,19 +478,42 @@ def c10(chk):
                     c = ol.rand_case(rng, order, d, n, tmType=tm, smType=0, k=(k % 2) * 7 + 300)
                     k += 1
                     rid = f'w{order}{d}{tm}.{step}'
-                    g += c.setup_lines(rid, 'X')
+                    sl = c.setup_lines(rid, 'X')
+                    if step >= 2 and rng.random() < 0.6:
+                        # the optimizer object itself is reused (no `opt_new`): re-initialised with a problem of another size, half of
+                        # the time after a first, rejected attempt with the same size (repair and retry)
+                        # (initialisation is the last configuration call: a later setter would rebuild whatever it left stale)
+                        sl = c.setup_lines(rid, 'X', init_last=True)[1:]
+                        chk.count('optimizer object reused across problems')
+                        if rng.random() < 0.5:
+                            bad = copy.copy(c); bad.h = list(c.h); bad.h[rng.randrange(n)] = 5e-4
+                            sl.insert(len(sl) - 1, bad.setup_lines(rid + '.bad', 'X')[2])
+                            chk.count('optimizer object reused: rejected attempt first')
+                    g += sl
+                    if rng.random() < 0.5:
+                        # an evaluation on the shared and on the built-in workspace is aborted half-way by an exception from the
+                        # user's running cost (e.g. a rejected trial point): the next evaluation must not see anything of it
+                        ca = copy.copy(c); ca.spec = dict(c.spec, pertKind=9, pertIdx=rng.randrange(0, 2 * (c.steps + 1)))
+                        ca.x = ol.rand_x(rng, c)
+                        g.append(ca.eval_line(rid + '.abort5', 'X', ws=5))
+                        g.append(ca.eval_line(rid + '.abortI', 'X', ws=-1))
+                        chk.count('workspace history: evaluation aborted by an exception')
                     g.append(c.eval_line(rid + '.reused', 'X', ws=5))
                     g.append(c.eval_line(rid + '.fresh', 'X', ws=1000 + k))
                     g.append(c.eval_line(rid + '.internal', 'X', ws=-1))
+                    # the same problem on a brand-new optimizer object
+                    cn = copy.copy(c); cn.slot = ol.slot_id(order, d, 380 + k % 5)
+                    g += cn.setup_lines(rid + '.n', 'X')
+                    g.append(cn.eval_line(rid + '.newopt', 'X', ws=-1))
                     pairs.append((rid, c))
                 groups.append(g)
     cpp, _ = run_cpp(groups)
     chk.evaluations += len(pairs) * 3
     for rid, c in pairs:
         cells(chk, c, 'workspace-reuse')
-        a, b, i3 = cpp[rid + '.reused'], cpp[rid + '.fresh'], cpp[rid + '.internal']
+        a, b, i3, i4 = cpp[rid + '.reused'], cpp[rid + '.fresh'], cpp[rid + '.internal'], cpp[rid + '.newopt']
         for key in ('cost', 'grad', 'coeffs', 'times'):
-            if a.get(key) != b.get(key) or a.get(key) != i3.get(key):
+            if a.get(key) != b.get(key) or a.get(key) != i3.get(key) or a.get(key) != i4.get(key):
                 chk.violation(f'an optimizer workspace reused across problems/sizes/optimizers gives a different {key} than a fresh one (bit-for-bit)',
                               c.describe(), {'request': rid})
                 break
@@ -603,7 +646,7 @@ def c15(chk):
             ws_exists[s] = True
 
         for st in range(rng.randint(6, 14)):
-            op = rng.choice(['copy', 'assign', 'assign', 'selfassign', 'maps', 'mutate', 'destroy', 'eval', 'eval', 'ptrs', 'move'])
+            op = rng.choice(['copy', 'assign', 'assign', 'selfassign', 'maps', 'mutate', 'destroy', 'eval', 'eval', 'ptrs', 'move', 'reject'])
             if len(live) < 2 and op in ('assign', 'destroy'):
                 op = 'copy'                    # assignments and destructions need a second object
             s = rng.choice(live)
@@ -615,6 +658,13 @@ def c15(chk):
                 state[t] = copy.copy(state[s]); ws_exists[t] = ws_exists[s]; live.append(t)
                 g.append(f'{rid}.{st}.p X opt_ptrs {t} {s}'); plan.append((f'{rid}.{st}.p', 'ptrs', (state[t], ws_exists[t], True), list(g)))
                 ev(t, 'c')
+            elif op == 'reject':
+                # a rejected initialisation (empty time points) flags the object invalid and leaves its configuration as it was;
+                # it still evaluates, and copies / assignments from it must carry the whole configuration
+                cs = state[s]
+                g.append(f'{rid}.{st} Q opt_init {s} tp 0 1 {hx(cs.t0)} {hxs(cs.P[0])} ' + ' '.join(hxs(b) for b in cs.bc))
+                chk.count('source flagged invalid by a rejected initialisation')
+                ev(s, 'r')
             elif op == 'move':
                 # move construction into a fresh slot; the moved-from object is destroyed at once. Before it, the source is put on
                 # a random mix of own/user maps (a move constructor must re-bind default maps and keep user maps)
@@ -810,6 +860,12 @@ def c16_opt(chk):
         if valid != ret or msg != (0 if ret else 1):
             chk.violation('verdict reported incoherently: validity flag / bool conversion / message availability disagree with the returned result',
                           tail, {'returned': ret, 'isValid(2=bool conversion differs)': valid, 'message_available': msg})
+        # (after `setInitState` with empty time points the object keeps its previous data: a direct checkValidity() then judges
+        # those data, not the rejected call - the same exception as below)
+        if 'after' in a and [int(x) for x in a['after']] != [1, 1, 1] and 'empty time points' not in name:
+            chk.violation('a read-only validity query changes what the object reports afterwards (stored message / flag / verdict)', tail,
+                          {'message_same_after_checkValidity(out)': a['after'][0], 'message_same_after_checkValidity()': a['after'][1],
+                           'verdicts_same': a['after'][2]})
         dv, dm = (int(x) for x in a['direct'])
         if dv != ret and 'empty time points' not in name:
             chk.violation('checkValidity() disagrees with the verdict stored by setInitState', tail, {'checkValidity': dv, 'returned': ret})
